@@ -29,6 +29,7 @@ Python transcription of SPARQL 1.1 Update §3/§4.3 over dict-of-sets, with its 
 compared with the implementation's quads through `isoutil.iso`.
 """
 import itertools
+import re
 import warnings
 
 import core  # noqa: F401
@@ -63,6 +64,8 @@ E = "http://e/"
 TERM = {}
 for _i in range(1, 10):
     TERM[_i] = URIRef(f"{E}n{_i}")
+TERM[7] = URIRef(f"{E}doc#x")        # spelled <#x> under BASE <http://e/doc>
+TERM[8] = URIRef(f"{E}sub/z")        # spelled <z> under BASE <http://e/sub/doc>, <../n1> goes the other way
 TERM.update({20: Literal(""), 21: Literal(0), 22: Literal(False), 23: Literal("x", lang="en"), 24: Literal(1)})
 TERM.update({30: BNode("b30"), 31: BNode("b31")})
 for _i in range(40, 47):
@@ -97,10 +100,217 @@ def n3(n):
     return t.n3()
 
 
+# ------------------------------------------------------------------ prologues: BASE / PREFIX, relative IRIs, prefixed names
+#
+# case["decl"][k] = declarations written before operation k:  ["base", b] | ["prefix", p, ns] | ["prefixrel", p, ref]
+# (b, p, ns index BASES / PFX / NSS; "prefixrel" declares the prefix with the relative IRI `ref`, resolved against
+# the base in force).  op["sp"] = spelling modes: IRI number n of the operation is written absolute (0), relative
+# to the base in force (1) or as a prefixed name (2) according to sp[n % len(sp)], when such a spelling exists.
+# The printer only emits a relative reference / prefixed name that DENOTES the intended IRI: `resolve` below is
+# RFC 3986 §5.2 written out here, independent of urllib and of rdflib.
+
+BASES = [E, E + "doc", E + "sub/doc"]
+NSS = [E, E + "sub/", E + "doc#"]
+PFX = ["e", "f"]
+_URI = re.compile(r"^(([^:/?#]+):)?(//([^/?#]*))?([^?#]*)(\?([^#]*))?(#(.*))?$")
+
+
+def _remove_dot_segments(path):
+    inp, out = path, []
+    while inp:
+        if inp.startswith("../"):
+            inp = inp[3:]
+        elif inp.startswith("./"):
+            inp = inp[2:]
+        elif inp.startswith("/./"):
+            inp = inp[2:]
+        elif inp == "/.":
+            inp = "/"
+        elif inp.startswith("/../"):
+            inp = inp[3:]
+            if out:
+                out.pop()
+        elif inp == "/..":
+            inp = "/"
+            if out:
+                out.pop()
+        elif inp in (".", ".."):
+            inp = ""
+        else:
+            j = inp.find("/", 1)
+            seg, inp = (inp, "") if j < 0 else (inp[:j], inp[j:])
+            out.append(seg)
+    return "".join(out)
+
+
+def resolve(base, ref):
+    """RFC 3986 §5.2.2 (strict)"""
+    m, b = _URI.match(ref), _URI.match(base)
+    rs, ra, rp, rq, rf = m.group(2), m.group(4), m.group(5), m.group(7), m.group(9)
+    bs, ba, bp, bq = b.group(2), b.group(4), b.group(5), b.group(7)
+    if rs is not None:
+        ts, ta, tp, tq = rs, ra, _remove_dot_segments(rp), rq
+    elif ra is not None:
+        ts, ta, tp, tq = bs, ra, _remove_dot_segments(rp), rq
+    elif rp == "":
+        ts, ta, tp, tq = bs, ba, bp, (rq if rq is not None else bq)
+    else:
+        if rp.startswith("/"):
+            tp = _remove_dot_segments(rp)
+        else:
+            merged = ("/" + rp) if (ba is not None and bp == "") else bp[: bp.rfind("/") + 1] + rp
+            tp = _remove_dot_segments(merged)
+        ts, ta, tq = bs, ba, rq
+    out = (ts + ":" if ts is not None else "") + ("//" + ta if ta is not None else "") + tp
+    out += ("?" + tq if tq is not None else "") + ("#" + rf if rf is not None else "")
+    return out
+
+
+def relative_spellings(base, target):
+    """relative references that denote `target` under `base` (each one checked with `resolve`)"""
+    cands = []
+    d = base[: base.rfind("/") + 1]
+    if target.startswith(d) and len(target) > len(d):
+        cands.append(target[len(d):])
+        cands.append("./" + target[len(d):])
+    if "#" in target and target.split("#")[0] == base.split("#")[0]:
+        cands.append("#" + target.split("#", 1)[1])
+    parent = d[: d.rstrip("/").rfind("/") + 1]
+    if len(parent) > len("http://") and target.startswith(parent) and len(target) > len(parent):
+        cands.append("../" + target[len(parent):])
+    mm = _URI.match(target)
+    cands.append(mm.group(5) + ("#" + mm.group(9) if mm.group(9) is not None else ""))      # absolute-path reference
+    return [c for c in dict.fromkeys(cands) if c and ":" not in c and resolve(base, c) == target]
+
+
+_PN_LOCAL = re.compile(r"^[A-Za-z][A-Za-z0-9]*$")
+
+
+class Prologue:
+    """the declarations in force: one state threaded through the whole request"""
+
+    def __init__(self):
+        self.base, self.prefixes = None, {}
+
+    def declare(self, d):
+        if d[0] == "base":
+            self.base = d[1]
+        elif d[0] == "prefix":
+            self.prefixes[d[1]] = d[2]
+        elif d[0] == "prefixrel" and self.base is not None:
+            ns = resolve(BASES[self.base], d[2])
+            if ns in NSS:
+                self.prefixes[d[1]] = NSS.index(ns)
+
+    @staticmethod
+    def text(d):
+        if d[0] == "base":
+            return f"BASE <{BASES[d[1]]}>"
+        if d[0] == "prefix":
+            return f"PREFIX {PFX[d[1]]}: <{NSS[d[2]]}>"
+        return f"PREFIX {PFX[d[1]]}: <{d[2]}>"
+
+
+class Ids:
+    """numbers for the relative references / local names of one case (the model gets them as table keys)"""
+
+    def __init__(self):
+        self.refs, self.locals = {}, {}
+
+    def ref(self, r):
+        return self.refs.setdefault(r, len(self.refs))
+
+    def local(self, x):
+        return self.locals.setdefault(x, len(self.locals))
+
+
+class Speller:
+    """how the IRIs of ONE operation are written, given the prologue in force"""
+
+    def __init__(self, pro=None, modes=None, k=0, ids=None):
+        self.pro, self.modes, self.k, self.ids, self.memo = pro, modes or [0], k, ids, {}
+
+    def choose(self, n):
+        if n in self.memo:
+            return self.memo[n]
+        c = ("abs",)
+        if self.pro is not None and kind(n) == "i" and n in TERM:
+            iri, mode = str(TERM[n]), self.modes[n % len(self.modes)]
+            if mode == 1 and self.pro.base is not None:
+                cands = relative_spellings(BASES[self.pro.base], iri)
+                if cands:
+                    c = ("rel", cands[(n // 3 + self.k) % len(cands)])
+            elif mode == 2:
+                for p, ns in sorted(self.pro.prefixes.items()):
+                    if iri.startswith(NSS[ns]) and _PN_LOCAL.match(iri[len(NSS[ns]):]):
+                        c = ("pn", p, ns, iri[len(NSS[ns]):])
+                        break
+        self.memo[n] = c
+        return c
+
+    def t(self, n):
+        """text of term n"""
+        c = self.choose(n)
+        if c[0] == "rel":
+            return f"<{c[1]}>"
+        if c[0] == "pn":
+            return f"{PFX[c[1]]}:{c[3]}"
+        return n3(n)
+
+    def m(self, n):
+        """token of term n for the model: the number, or what was written (@r.<ref> / @p.<prefix>.<local>)"""
+        c = self.choose(n) if isinstance(n, int) else ("abs",)
+        if c[0] == "rel":
+            return f"@r.{self.ids.ref(c[1])}"
+        if c[0] == "pn":
+            return f"@p.{c[1]}.{self.ids.local(c[3])}"
+        return str(n)
+
+
+ABS = Speller()
+
+
+def render(case):
+    """-> (per operation: (declaration text, body text, declaration lines for the model, operation line), Ids)"""
+    pro, ids, out = Prologue(), Ids(), []
+    decl = case.get("decl") or [[] for _ in case["ops"]]
+    for k, op in enumerate(case["ops"]):
+        dl = []
+        for d in decl[k] if k < len(decl) else []:
+            if d[0] == "prefixrel":
+                dl.append(f"prefixrel {d[1]} {ids.ref(d[2])}")
+            else:
+                dl.append(" ".join(map(str, d)))
+            pro.declare(d)
+        sp = Speller(pro, op.get("sp"), k, ids) if case.get("decl") else ABS
+        dtext = " ".join(Prologue.text(d) for d in (decl[k] if k < len(decl) else []))
+        out.append((dtext, op_text(op, sp), dl, op_line(op, sp)))
+    return out, ids
+
+
+def table_lines(ids):
+    """what each written reference / prefixed name denotes under EVERY base / namespace (so that a model using
+    the wrong prologue would get a different term, or none)"""
+    iri_no = {str(v): k for k, v in TERM.items() if kind(k) == "i"}
+    lines = []
+    for r, rid in ids.refs.items():
+        for b, base in enumerate(BASES):
+            t = resolve(base, r)
+            if t in iri_no:
+                lines.append(f"tabrel {b} {rid} {iri_no[t]}")
+            if t in NSS:
+                lines.append(f"tabns {b} {rid} {NSS.index(t)}")
+    for x, lid in ids.locals.items():
+        for n_, ns in enumerate(NSS):
+            if ns + x in iri_no:
+                lines.append(f"tabpn {n_} {lid} {iri_no[ns + x]}")
+    return lines
+
+
 # ------------------------------------------------------------------ request text
 
 
-def _block(quads, split=False):
+def _block(quads, split=False, sp=ABS):
     """quads the way a user writes them: runs of equal graph (with `split`: every quad on its own);
     default-graph runs as plain triples, the others as one GRAPH block each.  The same graph may therefore be
     named by several GRAPH blocks of one operation (translateQuads has to collect them all)."""
@@ -108,8 +318,8 @@ def _block(quads, split=False):
     runs = ([(q[3], [q]) for q in quads] if split
             else [(g, list(grp)) for g, grp in itertools.groupby(quads, key=lambda q: q[3])])
     for g, grp in runs:
-        ts = " . ".join(f"{n3(s)} {n3(p)} {n3(o)}" for s, p, o, _g in grp)
-        out.append(ts + " ." if g == 0 else f"GRAPH {n3(g)} {{ {ts} }}")
+        ts = " . ".join(f"{sp.t(s)} {sp.t(p)} {sp.t(o)}" for s, p, o, _g in grp)
+        out.append(ts + " ." if g == 0 else f"GRAPH {sp.t(g)} {{ {ts} }}")
     return " ".join(out)
 
 
@@ -120,48 +330,58 @@ def repeated_graph_blocks(quads, split=False):
     return sum(1 for g in set(named) if named.count(g) > 1)
 
 
-def _gref(t):
-    return t if isinstance(t, str) else ("DEFAULT" if t == 0 else f"GRAPH {n3(t)}")
+def _gref(t, sp=ABS):
+    return t if isinstance(t, str) else ("DEFAULT" if t == 0 else f"GRAPH {sp.t(t)}")
 
 
-def _gref2(t):
-    return "DEFAULT" if t == 0 else n3(t)
+def _gref2(t, sp=ABS):
+    return "DEFAULT" if t == 0 else sp.t(t)
 
 
-def op_text(op):
+def op_text(op, sp=ABS):
     k = op["k"]
     if k == "insertdata":
-        return f"INSERT DATA {{ {_block(op['q'], op.get('split'))} }}"
+        return f"INSERT DATA {{ {_block(op['q'], op.get('split'), sp)} }}"
     if k == "deletedata":
-        return f"DELETE DATA {{ {_block(op['q'], op.get('split'))} }}"
+        return f"DELETE DATA {{ {_block(op['q'], op.get('split'), sp)} }}"
     if k == "deletewhere":
-        return f"DELETE WHERE {{ {_block(op['q'], op.get('split'))} }}"
+        return f"DELETE WHERE {{ {_block(op['q'], op.get('split'), sp)} }}"
     if k == "modify":
         parts = []
         if op.get("with"):
-            parts.append(f"WITH {n3(op['with'])}")
+            parts.append(f"WITH {sp.t(op['with'])}")
         if op.get("del") is not None:
-            parts.append(f"DELETE {{ {_block(op['del'], op.get('split'))} }}")
+            parts.append(f"DELETE {{ {_block(op['del'], op.get('split'), sp)} }}")
         if op.get("ins") is not None:
-            parts.append(f"INSERT {{ {_block(op['ins'], op.get('split'))} }}")
+            parts.append(f"INSERT {{ {_block(op['ins'], op.get('split'), sp)} }}")
         for g in op.get("using", []):
-            parts.append(f"USING {n3(g)}")
+            parts.append(f"USING {sp.t(g)}")
         for g in op.get("named", []):
-            parts.append(f"USING NAMED {n3(g)}")
-        w = _block(op["where"])
+            parts.append(f"USING NAMED {sp.t(g)}")
+        w = _block(op["where"], False, sp)
         if op.get("filter"):
             v, o, c = op["filter"]
-            w += f" FILTER ({n3(v)} {o} {n3(c)})"
+            w += f" FILTER ({sp.t(v)} {o} {sp.t(c)})"
         parts.append(f"WHERE {{ {w} }}")
         return " ".join(parts)
     s = " SILENT" if op.get("silent") else ""
     if k in ("clear", "drop"):
-        return f"{k.upper()}{s} {_gref(op['t'])}"
-    return f"{k.upper()}{s} {_gref2(op['src'])} TO {_gref2(op['dst'])}"
+        return f"{k.upper()}{s} {_gref(op['t'], sp)}"
+    return f"{k.upper()}{s} {_gref2(op['src'], sp)} TO {_gref2(op['dst'], sp)}"
 
 
 def request_text(case):
-    return " ;\n".join(op_text(o) for o in case["ops"])
+    return " ;\n".join((d + "\n" if d else "") + body for d, body, _dl, _ol in render(case)[0])
+
+
+def stepwise_texts(case):
+    """each operation as a request of its own, under the declarations accumulated up to it"""
+    seen, out = [], []
+    for d, body, _dl, _ol in render(case)[0]:
+        if d:
+            seen.append(d)
+        out.append(("\n".join(seen) + "\n" if seen else "") + body)
+    return out
 
 
 # ------------------------------------------------------------------ the property's own oracle (SPARQL 1.1 Update)
@@ -528,9 +748,9 @@ def run_impl(case):
         stepwise = None
         if len(case["ops"]) > 1:
             top2, dflt2 = _build(case)
-            for op in case["ops"]:
+            for one in stepwise_texts(case):
                 try:
-                    top2.update(op_text(op))
+                    top2.update(one)
                 except Exception:  # noqa: BLE001
                     break
             stepwise = canon(set(_read(top2, dflt2, api)[0]))
@@ -587,6 +807,15 @@ def run_impl(case):
                     f" (extra {extra}, missing {missing})")
     stats = {"ops": len(case["ops"]), "prepared_update_object": int(bool(case.get("prep"))), "api_" + api: 1, "union_" + str(bool(case["union"])): 1, "err_" + err: 1,
              "minted": len({x for q in quads for x in q if x >= 1000}), **info}
+    if case.get("decl"):
+        stats["prologue_declared"] = 1
+        stats["prologue_redeclared_later"] = int(any(case["decl"][1:]))
+        for k_, (_d, _b, _dl, ol) in enumerate(render(case)[0]):
+            if k_ >= 1:
+                stats["relative_iri_in_later_op"] = stats.get("relative_iri_in_later_op", 0) + ol.count("@r.")
+                stats["prefixed_name_in_later_op"] = stats.get("prefixed_name_in_later_op", 0) + ol.count("@p.")
+            else:
+                stats["relative_iri_in_first_op"] = stats.get("relative_iri_in_first_op", 0) + ol.count("@r.")
     for o in case["ops"]:
         stats["op_" + o["k"]] = stats.get("op_" + o["k"], 0) + 1
         for f in ("q", "del", "ins"):
@@ -618,30 +847,30 @@ def _classify(case, extra, missing):
 # ------------------------------------------------------------------ the model side
 
 
-def _qs(quads):
-    return " ".join(f"{s} {p} {o} {g}" for s, p, o, g in quads)
+def _qs(quads, sp=ABS):
+    return " ".join(f"{sp.m(s)} {sp.m(p)} {sp.m(o)} {sp.m(g)}" for s, p, o, g in quads)
 
 
-def op_line(op):
+def op_line(op, sp=ABS):
     k = op["k"]
     if k in ("insertdata", "deletedata", "deletewhere"):
-        return f"{k} {len(op['q'])} {_qs(op['q'])}".strip()
+        return f"{k} {len(op['q'])} {_qs(op['q'], sp)}".strip()
     if k == "modify":
         d, i = op.get("del"), op.get("ins")
         f = op.get("filter")
         return " ".join(str(x) for x in [
-            "modify", op.get("with") or 0,
-            0 if d is None else len(d) + 1, _qs(d or []),
-            0 if i is None else len(i) + 1, _qs(i or []),
-            len(op.get("using", [])), *op.get("using", []),
-            len(op.get("named", [])), *op.get("named", []),
-            len(op["where"]), _qs(op["where"]),
-            *([1, f[0], 0 if f[1] == "=" else 1, f[2]] if f else [0])] if x != "")
+            "modify", sp.m(op.get("with") or 0),
+            0 if d is None else len(d) + 1, _qs(d or [], sp),
+            0 if i is None else len(i) + 1, _qs(i or [], sp),
+            len(op.get("using", [])), *[sp.m(g) for g in op.get("using", [])],
+            len(op.get("named", [])), *[sp.m(g) for g in op.get("named", [])],
+            len(op["where"]), _qs(op["where"], sp),
+            *([1, f[0], 0 if f[1] == "=" else 1, sp.m(f[2])] if f else [0])] if x != "")
     s = 1 if op.get("silent") else 0
     if k in ("clear", "drop"):
         t = op["t"]
-        return f"{k} {s} {t if isinstance(t, str) else 'GRAPH ' + str(t)}"
-    return f"{k} {s} {op['src']} {op['dst']}"
+        return f"{k} {s} {t if isinstance(t, str) else 'GRAPH ' + sp.m(t)}"
+    return f"{k} {s} {sp.m(op['src'])} {sp.m(op['dst'])}"
 
 
 def model_lines(case):
@@ -651,8 +880,11 @@ def model_lines(case):
     for g in case.get("reg", []):
         if case["api"] != "graph":
             lines.append(f"reg {g}")
-    for op in case["ops"]:
-        lines.append(op_line(op))
+    rendered, ids = render(case)
+    lines += table_lines(ids)
+    for _d, _body, dl, ol in rendered:
+        lines += dl
+        lines.append(ol)
     lines += ["err", "quads", "known"]
     return lines
 
@@ -691,7 +923,11 @@ def _gen_case(rng, tier, i):
     anyg = GNAMES[: min(4, ngraphs + 1)]         # includes one missing graph
     subj = [1, 2, 3, 30] if rng.random() < 0.7 else [1, 2]
     pred = [4, 5] if rng.random() < 0.7 else [4]
+    if rng.random() < 0.3:                        # IRIs with a fragment / in a sub-directory (see BASES)
+        subj = subj + [8]
     obj = [1, 2, 3, 20, 21, 22, 23, 24, 31, 90] if rng.random() < 0.6 else [1, 2, 3]
+    if 8 in subj:
+        obj = obj + [7, 8]
 
     def triple():
         return [rng.choice(subj), rng.choice(pred), rng.choice(obj)]
@@ -934,7 +1170,28 @@ def _gen_case(rng, tier, i):
                 "filter": flt, "split": split}
 
     ops = [gen_op() for _ in range(rng.choice([1, 1, 1, 2, 2, 3, 4]))]
-    return {"api": api, "union": union, "init": init, "reg": reg, "ops": ops, "prep": rng.random() < 0.25}
+    case = {"api": api, "union": union, "init": init, "reg": reg, "ops": ops, "prep": rng.random() < 0.25}
+    if rng.random() < 0.4:
+        # BASE / PREFIX before the first operation, sometimes redeclared before a later one; the IRIs of EVERY
+        # operation (terms and graph names) are then written relative / prefixed where such a spelling exists
+        def rel_prefix(b):
+            return ["prefixrel", rng.randrange(2), rng.choice(["../", "./"] if b == 2 else ["sub/", "./"])]
+
+        decl, b = [], None
+        for k in range(len(ops)):
+            ds = []
+            if (k == 0 and rng.random() < 0.85) or (k > 0 and rng.random() < 0.25):
+                b = rng.choice([x for x in range(3) if x != b])
+                ds.append(["base", b])
+            if (k == 0 and rng.random() < 0.6) or (k > 0 and rng.random() < 0.2):
+                ds.append(["prefix", rng.randrange(2), rng.choice([0, 0, 1])])
+            if b is not None and rng.random() < (0.25 if k == 0 else 0.1):
+                ds.append(rel_prefix(b))
+            decl.append(ds)                   # BASE first: a relative PREFIX IRI needs a base in force
+        case["decl"] = decl
+        for op in ops:
+            op["sp"] = [rng.choice([0, 1, 1, 1, 2, 2]) for _ in range(rng.randint(2, 4))]
+    return case
 
 
 def _group(quads):
@@ -950,11 +1207,34 @@ def _group(quads):
 # ------------------------------------------------------------------ shrinking, matchers
 
 
+def _decl_ok(case):
+    """a relative PREFIX IRI is only written where a base is in force under which it denotes a known namespace"""
+    pro = Prologue()
+    for ds in case.get("decl") or []:
+        for d in ds:
+            if d[0] == "prefixrel" and (pro.base is None or resolve(BASES[pro.base], d[2]) not in NSS):
+                return False
+            pro.declare(d)
+    return True
+
+
 def shrink(case):
+    for c in _shrink(case):
+        if _decl_ok(c):
+            yield c
+
+
+def _shrink(case):
     ops, init = case["ops"], case["init"]
     for i in range(len(ops)):
         if len(ops) > 1:
-            yield {**case, "ops": ops[:i] + ops[i + 1:]}
+            c2 = {**case, "ops": ops[:i] + ops[i + 1:]}
+            if case.get("decl"):
+                dd = [list(x) for x in case["decl"]] + [[] for _ in range(len(ops) - len(case["decl"]))]
+                if i + 1 < len(dd):
+                    dd[i + 1] = dd[i] + dd[i + 1]        # its declarations stay in force for what follows
+                c2["decl"] = dd[:i] + dd[i + 1:]
+            yield c2
     for i in range(len(init)):
         yield {**case, "init": init[:i] + init[i + 1:]}
     if case.get("reg"):
@@ -978,6 +1258,11 @@ def shrink(case):
         yield {**case, "union": False}
     if case.get("prep"):
         yield {**case, "prep": False}
+    if case.get("decl"):
+        yield {k_: v for k_, v in case.items() if k_ != "decl"}
+        for i in range(len(case["decl"])):
+            if case["decl"][i] and i > 0:
+                yield {**case, "decl": case["decl"][:i] + [[]] + case["decl"][i + 1:]}
     for i, op in enumerate(ops):
         if op.get("split"):
             yield {**case, "ops": ops[:i] + [{**op, "split": False}] + ops[i + 1:]}
